@@ -1374,7 +1374,7 @@ MANIFEST = {
     "engine": "planners",
     "category": "proof",
     "design_ref": "DESIGN.md 2.1",
-    "text": "Lean 4 theorems (31): (L0) the reporting layer shared by all planners (status truth table, PlannerInputStates "
+    "text": "Lean 4 theorems (32): (L0) the reporting layer shared by all planners (status truth table, PlannerInputStates "
             "nextStart/nextGoal filter and counters, PathGeometric::check, addSolutionPath bookkeeping); (L1) planners as oracle "
             "machines (run_congr, unasked_flip, undisciplined_refutable: unqueried stretches cannot be vouched for; "
             "checked_points_valid / discipline_sound: queried-valid points are valid and dense valid queries bound every invalid "
@@ -1382,8 +1382,10 @@ MANIFEST = {
             "script of draws, validity predicate, goal, threshold, range and interruption point, plus rrt_inbounds; (L2b) the same for "
             "geometric::RRTConnect::solve/growTree (two trees, connect loop, path assembly from both trees, intermediate states: "
             "rrtconnect_tree_inv, rrtconnect_solution_real, rrtconnect_path_checks); (L2c) geometric::LazyPRM with A* as a checked "
-            "oracle (lazyprm_roadmap_inv, lazyprm_removed_stay_removed, lazyprm_construct_validates, lazyprm_solution_real; the "
-            "component-id soundness only partially: lazyprm_components_sound_partial); the three models are tied to the C++ by bit-exact "
+            "oracle (lazyprm_roadmap_inv, lazyprm_removed_stay_removed, lazyprm_construct_validates, lazyprm_solution_real, and "
+            "lazyprm_components_sound: same component id => connected, for runs on which the model's own self-check flag stays "
+            "false, which the lock-step enforces); approx_bookkeeping_real for the approximate-solution bookkeeping shared by the "
+            "tree planners; the three models are tied to the C++ by bit-exact "
             "lock-step replay of recorded sampler/goal draws (trees, path, status, flags). Trace conformance: all 41 shipped "
             "geometric planners and 4 multilevel planners are run on random and adversarial box environments and every reported "
             "solution is judged by an independent spec oracle (valid in-bounds start, bounds, goal/approximate/difference/status "
